@@ -259,7 +259,10 @@ def _simple(name, kind, npaths=1):
             return orig(path, *args, **kwargs)
         w, a, p = c
         w.op(a, kind, p, w.rel(os.fspath(args[0])) if npaths == 2 and args else None)
-        return orig(path, *args, **kwargs)
+        res = orig(path, *args, **kwargs)
+        if kind == "stat" or kind == "lstat":
+            return w.sim_times(p, res)  # file times are a clock: simulated
+        return res
 
     wrapper.__name__ = name
     wrapper.__qualname__ = name
